@@ -4,8 +4,12 @@ from fractions import Fraction
 import numpy as np
 import check, gens
 
-GEN = ['tables', 'hkl']
-LEAN_MODULES = ['XfabVerif.Proofs.C05']
+GEN = ['tables', 'hkl', 't51']
+LEAN_MODULES = ['XfabVerif.Proofs.C05', 'XfabVerif.Proofs.C05T51']
+EXTRA_OBLIGATION_FILES = ['XfabVerif/Gen/T51/G%d.lean' % k for k in range(16)] + ['XfabVerif/Gen/T51/All.lean']
+AUDIT_FILES = ['XfabVerif/Lemmas/T51.lean', 'XfabVerif/Gen/T51/Segs.lean']
+# definitions the hand-written model mirrors (see harness/pins.py): a source change breaks the tie
+PINS = ['xfab/tools.py:genhkl_base', 'xfab/laue.py:genhkl_base', 'xfab/tools.py:genhkl_all', 'xfab/laue.py:genhkl_all', 'xfab/sg.py:sg']
 LEAN_DRIVER_MODULES = ['XfabVerif.Model.Hkl']
 RULE = ("60 settings sampled stratified over the 16 (Laue class, cell choice, crystal system) strata (quick) / all 237 (thorough); "
         "conforming cells random within the crystal system (a,b,c in [3,9], oblique angles 60-125 deg, rhombohedral 50-110 deg) plus "
@@ -269,9 +273,41 @@ def sample_settings(ctx, nquick):
     return out
 
 
+def long_axis_case(rng, s):
+    """a conforming cell with one (or, where the system forces it, all) axis of 55-80 A and a thin shell near
+    sin(theta)/lambda 0.4-0.5: reaches Miller indices of 50-80 while the output stays small"""
+    cc = 'rhombohedral' if s['cell_choice'] == 'rhombohedral' else 'standard'
+    cell = gens.conforming_cell(rng, s['cs'], cc, orth=(rng.random() < 0.5))
+    L = rng.uniform(55.0, 80.0)
+    cs = s['cs']
+    if cs == 'cubic' or cc == 'rhombohedral':
+        L = rng.uniform(52.0, 60.0)
+        cell[0] = cell[1] = cell[2] = L
+    elif cs in ('tetragonal', 'trigonal', 'hexagonal'):
+        cell[2] = L
+    else:
+        cell[rng.randrange(3)] = L
+    cell = [float(round(x, 4)) for x in cell]
+    smax = rng.uniform(0.40, 0.50)
+    thin = 0.004 if (cs == 'cubic' or cc == 'rhombohedral') else 0.02
+    return cell, float(round(smax * (1 - thin), 5)), float(round(smax, 5))
+
+
 def make_cases(ctx, ncells):
     cases, skipped = [], 0
-    for s in sample_settings(ctx, 60):
+    sets = sample_settings(ctx, 60)
+    # high-index stream: every 6th sampled setting (all of them when something broke) also gets a long-axis cell
+    for i, s in enumerate(sets):
+        if i % (2 if ctx.boost else 6) == 0:
+            for _ in range(10):
+                cell, smin, smax = long_axis_case(ctx.rng, s)
+                c = Case(s, cell, smin, smax)
+                if c.ok:
+                    c.long_axis = True
+                    cases.append(c)
+                    break
+                skipped += 1
+    for s in sets:
         # the oblique systems (where the traversal defect D2 lives) get three times as many cells
         oblique = s['cs'] in ('triclinic', 'monoclinic') or s['cell_choice'] == 'rhombohedral'
         for cell in conforming_cells(ctx.rng, s, ncells * (3 if oblique else 1)):
